@@ -435,6 +435,28 @@ def gen(rng, tier):
             plans.append(list(range(1, n)))
         c["plans"] = plans
         c["keep"] = [plans[0], [rng.randrange(1, n)]] + ([plans[-1]] if n <= 400 else [])
+    # chunk extensions with EVERY byte value, on an ordinary chunk and on the terminating chunk ("0" / "00")
+    def chunked(body_bytes):
+        return b"POST /x HTTP/1.1\r\nHost: h\r\nTransfer-Encoding: chunked\r\n\r\n" + body_bytes + b"GET /n HTTP/1.1\r\n\r\n"
+    special = [0, 1, 8, 9, 10, 11, 12, 13, 31, 32, 34, 59, 61, 92, 127, 128, 255]
+    for b in range(256):
+        e = b"a" + bytes([b]) + b"b"
+        add(chunked(b"1\r\nz\r\n0;" + e + b"\r\n\r\n"), "chunk-ext-last")
+        if not q or b in special:
+            add(chunked(b"1;" + e + b"\r\nz\r\n0\r\n\r\n"), "chunk-ext")
+            add(chunked(b"00;" + bytes([b]) + b"\r\nT: v\r\n\r\n"), "chunk-ext-last")
+            add(chunked(b"0;" + bytes([b]) + b"\r\n\r\n"), "chunk-ext-last")
+    # EVERY byte value inside the method and inside a field name (start / middle / end): 400 exactly for non-tchar
+    delims = sorted(set(list(b"\"(),/:;<=>?@[\\]{} \t") + [0, 127, 128, 255, 10, 13]))
+    for b in range(256):
+        c = bytes([b])
+        for pos, (m, n) in enumerate(((c + b"ET", c + b"-A"), (b"G" + c + b"T", b"X" + c + b"A"), (b"GE" + c, b"X-" + c))):
+            if q and pos != 1 and b not in delims:
+                continue
+            add(m + b" /m HTTP/1.1\r\nHost: h\r\n\r\nGET /n HTTP/1.1\r\n\r\n", "token-byte-method")
+            add(b"GET /f HTTP/1.1\r\n" + n + b": v\r\n\r\nGET /n HTTP/1.1\r\n\r\n", "token-byte-name")
+    for nm in (b'Content-Length"', b'"Content-Length', b'Transfer-Encoding"', b'Content"-Length'):
+        add(b"POST /q HTTP/1.1\r\n" + nm + b": 5\r\n\r\nhelloGET /n HTTP/1.1\r\n\r\n", "token-byte-name")
     # every kind of bad request followed by segments that would complete it / start the next one, delivered
     # line by line, byte-wise and at every 2-way cut to a transport that keeps feeding after loseConnection
     tails = [b"\r\n", b"Host: h\r\n\r\n", b"\r\nabc", b"\r\n\r\n" + SENTINEL, b"3\r\nabc\r\n0\r\n\r\n" + SENTINEL]
@@ -553,7 +575,8 @@ SPEC = Spec(
     nontrivial=lambda c, o: len(c["stream"]) > 40,
     histogram=lambda c, o: (lambda w: c["cls"].split(":")[0] + " -> " + str(w.count("/") + (w[0] != " ")) + w[-1])(o.split("|")[0]),
     case_timeout=20.0,
-    rule="[keep-feeding: the same plans again, and 110 bad-request streams x 5 completing tails at every cut, delivered to a "
+    rule="[every byte 0-255 in a chunk extension (ordinary and terminating chunk) and inside the method / a field name at "
+         "start, middle, end (quick: middle for all bytes, all positions for delimiters and controls)] [keep-feeding: the same plans again, and 110 bad-request streams x 5 completing tails at every cut, delivered to a "
          "transport that still feeds the channel after loseConnection: nothing may be processed after a 400 / close] "
          "each stream delivered in one piece (compared with the model and the RFC reference) and again byte-wise, at "
          "4 random 2-way cuts and one random multi-way cut (all must agree with the one-piece result; sound by C18's "
